@@ -2,7 +2,7 @@
    Property theorems only. *)
 From Coq Require Import ZArith List.
 From stdpp Require Import gmap sets.
-From NV Require Import C20_Model TA_Model TA_Proofs TA_Capacity TA_Cap2 TA_Nonempty.
+From NV Require Import C20_Model TA_Model TA_Proofs TA_Capacity TA_Cap2 TA_Nonempty TA_NonemptyInv.
 Open Scope Z_scope.
 
 (* Capacity: for every tree passing tree_wfb2 and EVERY history -- allocate, release, failed allocation, reset and
@@ -60,6 +60,25 @@ Theorem C03_nonempty_cpuset_reinstatement_order :
   | Err _ => False end.
 Proof. exact k10_reserve_order. Qed.
 Print Assumptions C03_nonempty_cpuset_reinstatement_order.
+
+(* What holds for zero-request containers too: K10 is a matter of placement only.  On every history in which each
+   container is placed (allocated or reinstated) into a pool that has a sharable CPU for it at that moment (run_p: the
+   guard is judged on the state right after the placement), EVERY container of the normal class keeps a non-empty
+   cpuset for ever: no later allocation, release or reinstatement of any container takes the last sharable CPU of a
+   pool in which a container runs on the shared CPUs. *)
+Theorem C03_nonempty_cpuset_once_placed : forall t os s cid g,
+  tree_wfb2 t = true -> forallb nonneg_reserve os = true -> run_p t (init t) os = Ok s ->
+  grants s !! cid = Some g -> g_type g = CpuNormal -> (g_pool g < length t)%nat -> told_cpus t s g <> ∅.
+Proof. exact told_nonempty_placed. Qed.
+Print Assumptions C03_nonempty_cpuset_once_placed.
+
+(* the K10 witnesses fail exactly that guard, and histories that allocate, mix and release pass it *)
+Theorem C03_k10_is_placement :
+  run_p k10a_tree (init k10a_tree) k10a_ops = Err (ErrGuard 15) /\
+  run_p k10_tree (init k10_tree) k10_ops = Err (ErrGuard 15) /\
+  match run_p ex_tree (init ex_tree) ex_ops with Ok s => negb (Nat.eqb (size (grants s)) 0) = true | Err _ => False end.
+Proof. destruct k10_fail_placement as [H1 H2]. split; [exact H1|]. split; [exact H2|exact placement_guard_satisfiable]. Qed.
+Print Assumptions C03_k10_is_placement.
 
 (* the per-pool ledgers equal the sums of the portions of the pool's grants, for all histories *)
 Theorem C03_ledger_exact : forall t os s, run t (init t) os = Ok s ->
